@@ -634,7 +634,10 @@ class AsyncClient(base_client.BaseClient):
         """This background task sends packages to the server as they are
         pushed to the send queue.
         """
-        while self.state == 'connected':
+        # packets queued before disconnect() was called (the CLOSE packet
+        # included) are still sent when a write was in flight at that moment
+        while self.state == 'connected' or (
+                self.state == 'disconnecting' and not self.queue.empty()):
             # to simplify the timeout handling, use the maximum of the
             # ping interval and ping timeout as timeout, with an extra 5
             # seconds grace period
